@@ -38,7 +38,7 @@ fn setup(ctx: &mut Ctx) {
 }
 
 fn strata(t: Tier) -> Vec<Stratum> {
-    vec![st("generated-objects", scale(t, 16_000, 1_000_000, 4))]
+    vec![st("generated-objects", scale(t, 320_000, 3_200_000, 4))]
 }
 
 fn first_named(r: &RefFile<'_>, q: &[u8]) -> Option<usize> {
@@ -174,7 +174,9 @@ fn check_by_name(ctx: &mut Ctx, f: &ElfBytes<'_, AnyEndian>, data: &[u8], r: &Re
                 Ok(s) => {
                     qs.push((s.to_string(), false));
                     if s.len() > 1 {
-                        qs.push((s[..s.len() - 1].to_string(), true));
+                        if s.is_char_boundary(s.len() - 1) {
+                            qs.push((s[..s.len() - 1].to_string(), true));
+                        }
                         if s.is_char_boundary(1) {
                             qs.push((s[1..].to_string(), true));
                         }
